@@ -2,8 +2,9 @@
 (* What an MLW weight stream must be (property C07), as predicates over one observation
        request  = (configuration c, flattened OHWI source weights w)   or a raw sequence w
        outcome  = "stream" with the decoded stream `dec` and the stream length `len` in bytes,
-                  "rejected" (the call returned an error / raised), or
-                  "crashed" (the process died: signal, abort or sanitizer report).
+                  "rejected" (the call returned an error / raised),
+                  "crashed" (the process died inside the encoder: signal, abort or sanitizer report), or
+                  "undecodable" (the encoder returned a stream on which the reference decoder died).
    The decoded stream is produced by the repository's reference decoder from the bytes the
    encoder of the working tree returned.  The hardware order is WeightOrder!Order. *)
 EXTENDS WeightOrder
@@ -20,7 +21,7 @@ ExpectedThenZeros(dec, exp) ==
 
 Aligned16(len) == len > 0 /\ len % 16 = 0
 
-Outcomes == {"stream", "rejected", "crashed"}
+Outcomes == {"stream", "rejected", "crashed", "undecodable"}
 
 (* failing clauses of one observation; `exp` is the stream the hardware must see *)
 Clauses(w, exp, outcome, dec, len) ==
@@ -28,6 +29,7 @@ Clauses(w, exp, outcome, dec, len) ==
     THEN (IF outcome # "rejected" THEN {"OutOfRangeRejected"} ELSE {})
     ELSE CASE outcome = "rejected" -> {"InRangeEncoded"}
            [] outcome = "crashed" -> {"MemorySafe"}
+           [] outcome = "undecodable" -> {"LosslessInHardwareOrder"}
            [] OTHER -> (IF ExpectedThenZeros(dec, exp) THEN {} ELSE {"LosslessInHardwareOrder"})
                        \cup (IF Aligned16(len) THEN {} ELSE {"Aligned16"})
 
